@@ -2441,8 +2441,11 @@ def check_c10(prog, rep, tier, cfg):
         if depth:
             for c in b.calls():
                 cb = prog.body(c.target or "")
-                if cb is not None and cb.crate == b.crate and cb.npath != b.npath and cb.npath.rsplit("::", 1)[0] == b.npath.rsplit("::", 1)[0]:
-                    out += mul_pairs(cb, depth - 1)
+                if cb is not None and cb.crate == b.crate and cb.npath != b.npath and (cb.npath.rsplit("::", 1)[0] == b.npath.rsplit("::", 1)[0] or cb.npath.startswith(b.npath + "::")):
+                    # the helper's factors are its parameters: what the call passes for them (`width(self.indentations, get_indentation_str())`)
+                    sub = {"arg%d" % (i + 1): canon(b, a) for i, a in enumerate(c.args)}
+                    for x, y in mul_pairs(cb, depth - 1):
+                        out.append(tuple(sorted(re.sub(r"\barg(\d+)\b", lambda m: sub.get(m.group(0), m.group(0)), f) for f in (x, y))))
         return sorted(out)
     nb = prog.body("pasfmt_core::defaults::reconstructor::DelphiLogicalLinesReconstructor::nonbreaking_ws_len")
     if rep.check(nb is not None, R, "anchor:nonbreaking_ws_len", "nonbreaking_ws_len not found"):
